@@ -7,7 +7,11 @@
 // The space is finite and small: callers enumerate it completely.
 package oneline
 
-import "strings"
+import (
+	"go/scanner"
+	"go/token"
+	"strings"
+)
 
 // Children are the node spellings; none contains a line break.
 var Children = []string{
@@ -137,7 +141,7 @@ var Layouts = []Layout{
 	{Name: "call-args", Pre: "\t@c2(", Post: ")", Toks: []string{`s`, `,`, `b`}},
 	{Name: "call-args-comma", Pre: "\t@c2(", Post: ")", Toks: []string{`s`, `,`, `b`, `,`}},
 	{Name: "call-args-block", Pre: "\t@c2(", Post: ") {\n\t\tinner\n\t}", Toks: []string{`up(`, `s`, `)`, `,`, `b`}},
-	{Name: "raw-go", Pre: "\t{{", Post: "}}", Toks: []string{`v`, `:=`, `s`}},
+	{Name: "raw-go", Pre: "\t{{", Post: "}}\n\t{ v }", Toks: []string{`v`, `:=`, `s`}},
 	{Name: "raw-go-two", Pre: "\t{{", Post: "}}\n\t{ v }", Toks: []string{`v`, `:=`, `up(`, `s`, `)`, `;`, `_ = v`}},
 	{Name: "if", Pre: "\tif ", Post: "{\n\t\tyes\n\t}", Toks: []string{`b`, `&&`, `len(xs) > 0`}},
 	{Name: "if-call", Pre: "\tif ", Post: "{\n\t\tyes\n\t}", Toks: []string{`up(`, `s`, `)`, `==`, `"a"`}},
@@ -167,6 +171,11 @@ var ThoroughGaps = []string{"", " ", "\n", "\t", "\n\n", "\n\t\t"}
 
 // EachLayout calls f with every member of the layout family over the given gap alphabet; shard i of n.
 func EachLayout(i, n int, gaps []string, f func(name, src string)) {
+	EachLayoutX(i, n, gaps, func(l Layout, varied, src string) { f(l.Name, src) })
+}
+
+// EachLayoutX is EachLayout with the layout and the varied text (tokens and gaps) handed over too.
+func EachLayoutX(i, n int, gaps []string, f func(l Layout, varied, src string)) {
 	k := 0
 	for _, l := range Layouts {
 		places := len(l.Toks) + 1
@@ -195,7 +204,36 @@ func EachLayout(i, n int, gaps []string, f func(name, src string)) {
 			} else {
 				src = header + layoutHeader + "templ T(s string, b bool, xs []string, attrs templ.Attributes) {\n" + body + "\n}\n"
 			}
-			f(l.Name, src)
+			f(l, sb.String(), src)
 		}
 	}
+}
+
+// SameTokens reports whether the varied text still reads as the layout's tokens: a spelling without
+// a blank between two words ("sstring") is a different program, written by a different author.
+// Semicolons the Go scanner inserts at line ends are not counted.
+func SameTokens(l Layout, varied string) bool {
+	return strings.Join(goTokens(strings.Join(l.Toks, " ")), "\x00") == strings.Join(goTokens(varied), "\x00")
+}
+
+func goTokens(src string) []string {
+	var s scanner.Scanner
+	fset := token.NewFileSet()
+	file := fset.AddFile("", fset.Base(), len(src))
+	s.Init(file, []byte(src), func(token.Position, string) {}, 0)
+	var out []string
+	for {
+		_, tok, lit := s.Scan()
+		if tok == token.EOF {
+			break
+		}
+		if tok == token.SEMICOLON && lit == "\n" {
+			continue
+		}
+		if lit == "" {
+			lit = tok.String()
+		}
+		out = append(out, lit)
+	}
+	return out
 }
